@@ -432,3 +432,33 @@ def unhex(a):
     if isinstance(a, str):
         return float.fromhex(a)
     return np.array([unhex(x) for x in a], dtype=float)
+
+
+def defaults_snapshot():
+    """repr of every mutable default argument of every function / method defined in the FDApy package (module- and
+    function-level state that can leak from one call into the next)."""
+    import importlib
+    import inspect
+    import pkgutil
+    import FDApy
+    snap = {}
+    for mi in pkgutil.walk_packages(FDApy.__path__, "FDApy."):
+        try:
+            mod = importlib.import_module(mi.name)
+        except Exception:  # noqa: BLE001
+            continue
+        fns = []
+        for _, obj in inspect.getmembers(mod):
+            if inspect.isfunction(obj) and obj.__module__ == mod.__name__:
+                fns.append((obj.__qualname__, obj))
+            elif inspect.isclass(obj) and obj.__module__ == mod.__name__:
+                for _, m in inspect.getmembers(obj, predicate=inspect.isfunction):
+                    fns.append((m.__qualname__, m))
+        for qn, f in fns:
+            for k, v in enumerate(f.__defaults__ or ()):
+                if isinstance(v, (dict, list, set)) or type(v).__module__ == "numpy":
+                    snap[f"{mod.__name__}.{qn}#default{k}"] = repr(v)
+            for k, v in (f.__kwdefaults__ or {}).items():
+                if isinstance(v, (dict, list, set)) or type(v).__module__ == "numpy":
+                    snap[f"{mod.__name__}.{qn}#{k}"] = repr(v)
+    return snap
